@@ -6,7 +6,7 @@ import os, subprocess, sys
 from lib import vf
 
 MANIFEST = {
-  'text': "Coq theorems over the model of RawYAML*.Equals, isYAMLValueSubset and RuleMatrix (coq/Matrix): Equals decides structural equality with mappings as finite maps, is symmetric and independent of member order; a row value is flagged iff an earlier value of the row is structurally equal; subset decides the declarative containment relation; the verdict for every exclude entry is the unique one the property demands. Unbounded (all values, all nesting depths, all rows). The model is tied to the code by evaluating it with vm_compute on the Matrix ASTs the real parser produced for generated workflows and comparing with RuleMatrix's diagnostics (kind, position, cited position); the property itself is also evaluated on the implementation by a reference written from the property text.",
+  'text': "Coq theorems over the model of RawYAML*.Equals, isYAMLValueSubset and RuleMatrix (coq/Matrix): Equals decides structural equality with mappings as finite maps, is symmetric and independent of member order; a row value is flagged iff an earlier value of the row is structurally equal; subset decides the declarative containment relation; the verdict for every exclude entry is the unique one the property demands. Unbounded (all values, all nesting depths, all rows). The model is tied to the code by evaluating it with vm_compute on the Matrix ASTs the real parser produced for generated workflows and comparing with RuleMatrix's diagnostics (kind, position, cited position); the property itself is also evaluated on the implementation by a reference written from the property text. A value is built from an expression iff a `${{` is followed anywhere after it by `}}` (contains_expr_spec; the comparison of the FIRST `}}` with the first `${{` before the repair 226984b is refuted).",
   'note': "Trusted: Coq kernel; the hand-written model (correspondence-checked, not proved equal to the Go code); harness generators/dumper; Go map iteration is modelled as an association list in an arbitrary order. Not modelled: yaml.v3, parse.go (the model starts from the Matrix AST).",
   'technique': "machine-checked proof in Coq (structural induction over nested YAML values) + vm_compute correspondence against the Go implementation",
  }
